@@ -459,6 +459,10 @@ def main(tier):
     c17.rule_C(ck, units)
     rule_C(ck, units)
     rule_D(ck, units)
+    # outputs are a function of the inputs only: the multigrid cycle does not read what an earlier application left in
+    # its per-level scratch vectors (rules shared with C02)
+    import c02
+    c02.rule_AB(ck, {k: v for k, v in units.items() if k in ('rt_builtin', 'mpi_rt')})
     ck.assumptions += ['index arithmetic in range for all inputs and leaks on exception paths are not decided',
                        'arrays written only at the diagonal entry rely on the documented precondition of a structurally present diagonal']
     return ck.finish()
